@@ -29,7 +29,21 @@ Checks(e) ==
       KC == IF n <= 9 THEN KCoreTable(G) ELSE <<>>
       Eff == IF n >= 2 THEN GlobalEfficiency(D) ELSE 0
       EffOf(B) == IF Len(B) < 2 THEN 0 ELSE GlobalEfficiency(DistMat(B))
+      \* link-weighted variants: cube roots fixed by the node numbers, weights = their cubes
+      R == RootMat(e.A, e.directed)   W == CubeMat(R)
+      WD == WDistMat(e.A, W)
   IN <<
+  <<"link_attribute(c)", Mat(e, "link_attribute(c)", LAMBDA a, b : S * W[a][b])>>,
+  <<"outdegree(c)", Vec(e, "outdegree(c)", LAMBDA k : S * OutStrength(W, k))>>,
+  <<"indegree(c)", Vec(e, "indegree(c)", LAMBDA k : S * InStrength(W, k))>>,
+  <<"degree(c)", Vec(e, "degree(c)", LAMBDA k : S * (IF und THEN OutStrength(W, k)
+                                                      ELSE OutStrength(W, k) + InStrength(W, k)))>>,
+  <<"bildegree(c)", Vec(e, "bildegree(c)", LAMBDA k : S * BilStrength(W, k))>>,
+  <<"local_cyclemotif_clustering(c)", Vec(e, "local_cyclemotif_clustering(c)", LAMBDA k : WCycleMotif(G, R, k))>>,
+  <<"local_midmotif_clustering(c)", Vec(e, "local_midmotif_clustering(c)", LAMBDA k : WMidMotif(G, R, k))>>,
+  <<"local_inmotif_clustering(c)", Vec(e, "local_inmotif_clustering(c)", LAMBDA k : WInMotif(G, R, k))>>,
+  <<"local_outmotif_clustering(c)", Vec(e, "local_outmotif_clustering(c)", LAMBDA k : WOutMotif(G, R, k))>>,
+  <<"path_lengths(c)", Mat(e, "path_lengths(c)", LAMBDA a, b : IF WD[a][b] >= INFD THEN INF ELSE S * WD[a][b])>>,
   <<"degree", Vec(e, "degree", LAMBDA k : S * Deg(G, k))>>,
   <<"indegree", Vec(e, "indegree", LAMBDA k : S * InDeg(G, k))>>,
   <<"outdegree", Vec(e, "outdegree", LAMBDA k : S * OutDeg(G, k))>>,
